@@ -49,3 +49,19 @@ Theorem C12_append_refuted : forall find k n gold items,
   find n items = None -> find n (items ++ [Def str str n gold]) = None ->
   cex_ find k n gold (items ++ [Def str str n gold]) = Some ((items ++ [Def str str n gold]) ++ [Def str str n gold]).
 Proof. intros find k n gold items. apply append_grows. Qed.
+
+(* cmp_ast is the change detector: `sync` prints "unchanged" and leaves a target alone exactly when it answers True.  For every
+   pair of Python object trees (instances of one class carrying the same number of fields, as Python guarantees): it answers
+   True only for equal trees -- in particular never for a list that is a proper prefix of the other -- and always for equal ones. *)
+From CDD Require Import CmpAst CmpAstProofs.
+Theorem C12_cmp_ast_only_equal : forall a b, same_arity a b = true -> cmp_ast a b = true -> a = b.
+Proof. exact cmp_ast_sound. Qed.
+Print Assumptions C12_cmp_ast_only_equal.
+Theorem C12_cmp_ast_reflexive : forall a, cmp_ast a a = true.
+Proof. exact cmp_ast_refl. Qed.
+Theorem C12_cmp_ast_lists_same_length : forall x y, cmp_ast (Lst x) (Lst y) = true -> length x = length y.
+Proof. exact cmp_ast_list_length. Qed.
+Example C12_cmp_ast_prefix_example :
+  cmp_ast (Lst [Atom (s2l "int") (s2l "1"); Atom (s2l "int") (s2l "2")]) (Lst [Atom (s2l "int") (s2l "1")]) = false
+  /\ cmp_ast (Lst []) (Lst [Atom (s2l "int") (s2l "1")]) = false.
+Proof. split; vm_compute; reflexivity. Qed.
